@@ -25,6 +25,13 @@ def make_data(cat_x, cat_y, explicit):
     d = Data(label='d', nx=numx, ny=numy)
     lx = np.array(cat_x)[ixx]
     ly = np.array(cat_y)[iyy]
+    if explicit:
+        # rows whose label is not one of the listed categories (no plotted position, hence in no region) although a listed label is a prefix of it
+        lx = np.concatenate([lx.astype('U8'), [cat_x[0] + 'zz', cat_x[-1]]])
+        ly = np.concatenate([ly.astype('U8'), [cat_y[0], cat_y[-1] + 'zz']])
+        numx = np.concatenate([numx, [0.0, 0.0]])
+        numy = np.concatenate([numy, [0.0, 0.0]])
+        d = Data(label='d', nx=numx, ny=numy)
     d.add_component(CategoricalComponent(lx, categories=np.array(cat_x) if explicit else None), 'cx')
     d.add_component(CategoricalComponent(ly, categories=np.array(cat_y) if explicit else None), 'cy')
     return d
@@ -58,7 +65,8 @@ def near_boundary(roi, px, py, band=BAND):
     near = np.zeros(px.shape, bool)
     for dx, dy in ((BAND, 0), (-BAND, 0), (0, BAND), (0, -BAND), (BAND, BAND), (-BAND, -BAND), (BAND, -BAND), (-BAND, BAND)):
         near |= contains(roi, px + dx, py + dy) != base
-    return near | np.isnan(px) | np.isnan(py)
+    # an element without a plotted position (NaN value, label outside the listed categories) lies in no region: expected unselected, never skipped
+    return near & ~(np.isnan(px) | np.isnan(py))
 
 
 def rois(extra_rng=None, n_extra=0):
